@@ -392,6 +392,8 @@ pub fn xfer(prop: &'static str, tier: Tier, w: &Arc<World>) -> Scn {
                 fc.fate_w = [30, 3, 3, 3, 1, 1];
                 fc.budget = 1 + d.range("swarm.fault.budget", budget_max);
                 fc.recv_err_w = if d.chance("swarm.fault.recv_err", 1, 4) { 30 } else { 0 };
+                // a transiently failing send syscall: the transfer may die, it must not go on corrupted
+                fc.send_err_w = if d.chance("swarm.fault.send_err", 1, 4) { 40 } else { 0 };
             }
             // adversarial acknowledgements / stray packets
             if d.chance("swarm.adversary", 1, 2) {
@@ -457,6 +459,10 @@ pub fn xfer(prop: &'static str, tier: Tier, w: &Arc<World>) -> Scn {
                         // the uploading peer dies after a number of DATA datagrams, possibly inside a window
                         xc.die_after_blocks = Some(d.range("swarm.c07.die_after", nblocks.min(40) + 1) as u64);
                     } else {
+                        // a burst of duplicate ACKs may precede the silence (they must not unsettle the retry budget)
+                        for _ in 0..d.range("swarm.c07.dup_acks_before_silence", 9) {
+                            xc.script.push((step, Adv::AckDup));
+                        }
                         xc.script.push((step, Adv::Silent));
                     }
                     conformant = false;
